@@ -1,7 +1,16 @@
 package props
 
 import (
+	"fmt"
+	"go/constant"
+	"sort"
+	"strings"
+
+	"golang.org/x/tools/go/ssa"
+
 	"utilcheck/flow"
+	"utilcheck/lang"
+	"utilcheck/pred"
 )
 
 func init() {
@@ -19,15 +28,301 @@ func init() {
 }
 
 func runC09(e *Env) {
+	ruleC09Layout(e)
 	dp := e.Fn("C09.valid", "date", "DefaultParser")
 	if dp != nil {
 		e.Flow(func(c *flow.Ctx) { c.RuleCalendarParser(dp) })
 	}
+	if dp != nil {
+		newFn := e.P.Func("date", "New")
+		e.Flow(func(c *flow.Ctx) {
+			c.RuleCaptureToArgs("C09.comp", dp, func(f *ssa.Function) bool { return f == newFn }, []int64{1, 2, 3}, []string{"year", "month", "day"})
+		})
+	}
+	e.S.Floor("C09.comp", 3)
 	e.S.Floor("C09.valid", 1)
 	ruleErrZero(e, "C09.errzero", "date")
 	ruleWrap(e, "C09.wrap", "date")
 	ruleLimit(e, "C09.limit", "date")
+	ruleTyped(e, "C09.typed", "date")
+	e.S.Floor("C09.typed", 1)
 	e.S.Floor("C09.errzero", 5)
 	e.S.Floor("C09.wrap", 5)
 	e.S.Floor("C09.limit", 4)
+}
+
+// ---------------------------------------------------------------------------
+// C09.layout / C01.lang: accepted layout language of the date parser
+
+func two(pred func(int) bool) string {
+	var alts []string
+	for i := 0; i < 100; i++ {
+		if pred(i) {
+			alts = append(alts, fmt.Sprintf("%02d", i))
+		}
+	}
+	return "(?:" + strings.Join(alts, "|") + ")"
+}
+
+// realDateLanguage builds the checker's own language of existing calendar days, for the separator sep ("-" or "").
+// The Gregorian leap rule is regular over decimal digits: a year is leap iff its last two digits are a non-zero
+// multiple of 4, or they are 00 and the two digits before them are a multiple of 4.
+func realDateLanguage(sep string) (real, leap, nonleap, years string) {
+	dg := `[0-9]`
+	mult4 := two(func(i int) bool { return i%4 == 0 && i != 0 })
+	mult4z := two(func(i int) bool { return i%4 == 0 })
+	nmult4 := two(func(i int) bool { return i%4 != 0 })
+	leap = `(?:` + dg + `{2,7}` + mult4 + `|` + dg + `{0,5}` + mult4z + `00)`
+	nonleap = `(?:` + dg + `{2,7}` + nmult4 + `|` + dg + `{0,5}` + nmult4 + `00)`
+	years = dg + `{4,9}`
+	d31 := two(func(i int) bool { return i >= 1 && i <= 31 })
+	d30 := two(func(i int) bool { return i >= 1 && i <= 30 })
+	d29 := two(func(i int) bool { return i >= 1 && i <= 29 })
+	d28 := two(func(i int) bool { return i >= 1 && i <= 28 })
+	real = `(?:` + years + sep + `(?:01|03|05|07|08|10|12)` + sep + d31 + `|` + years + sep + `(?:04|06|09|11)` + sep + d30 + `|` + leap + sep + `02` + sep + d29 + `|` + nonleap + sep + `02` + sep + d28 + `)`
+	return
+}
+
+type dateLayout struct {
+	sp                       *lang.Space
+	acc0, acc1, disabled     *lang.D // accepted with rule bit clear / set; rejected with ErrBasicFormatDisabled (bit set)
+	realExt, realBasic, real *lang.D
+	pattern                  *lang.D
+	leaves                   int
+	extra                    []*lang.D // DFAs of the caller's extra patterns, in the same space
+}
+
+// dateLayoutLanguages extracts the layout decision table of date.DefaultParser and turns it into languages.
+func dateLayoutLanguages(e *Env, rule string, extra ...string) *dateLayout {
+	dp := e.Fn(rule, "date", "DefaultParser")
+	if dp == nil {
+		return nil
+	}
+	site := flow.FnName(dp)
+	pat, ok := e.pattern(rule, "date", "pattern")
+	if !ok {
+		return nil
+	}
+	fixed := func(a, b pred.Val) (int, bool, bool) {
+		as, bs := a.String(), b.String()
+		switch {
+		case as == "len(input)" && bs == "0":
+			return 1, true, true // non-empty input
+		case as == "*date.MaxInputLength" && bs == "0":
+			return 0, true, true // limit disabled: the guard is C18.L's business
+		case strings.HasPrefix(as, "len((*regexp.Regexp).FindSubmatch(") && bs == "0":
+			return 1, true, true // the pattern matched
+		case strings.Contains(as, "#") && strings.Contains(bs, "strconv.Atoi"), strings.Contains(bs, "#") && strings.Contains(as, "strconv.Atoi"):
+			return 0, true, true // calendar round-trip guard passes (decided by C09.valid)
+		}
+		return 0, false, false
+	}
+	keyOf := func(a, b pred.Val) (string, bool) {
+		if el, ok := a.(pred.Elem); ok && el.Base.String() == "input" {
+			if af, ok := el.Index.(pred.Affine); ok && af.X.String() == "len(input)" && af.C < 0 {
+				if c, ok := b.(pred.Const); ok && c.V != nil {
+					return fmt.Sprintf("byte@%d==%s", -af.C, c.V.ExactString()), true
+				}
+			}
+		}
+		if bits, ok := a.(pred.Bits); ok {
+			if c, ok := b.(pred.Const); ok && c.V != nil && c.V.ExactString() == "0" {
+				var idx []string
+				for i, bit := range bits.B {
+					switch bit.K {
+					case 's':
+						if bit.Sym != "r" || bit.Idx != i {
+							return "", false
+						}
+						idx = append(idx, fmt.Sprint(i))
+					case '0':
+					default:
+						return "", false
+					}
+				}
+				return "rule&bits(" + strings.Join(idx, ",") + ")", true
+			}
+		}
+		return "", false
+	}
+	domain := func(key string) []int { return []int{0, 1} } // equal / different
+	sums := map[string]pred.Summary{
+		"go.lstv.dev/util/date.New": func(ev *pred.Evaluator, args []pred.Val) (pred.Val, error) {
+			return pred.Term{Fn: "New", Args: args}, nil
+		},
+		"(go.lstv.dev/util/date.Date).Date": func(ev *pred.Evaluator, args []pred.Val) (pred.Val, error) {
+			return pred.Tuple{pred.Term{Fn: "Date#0", Args: args}, pred.Term{Fn: "Date#1", Args: args}, pred.Term{Fn: "Date#2", Args: args}}, nil
+		},
+		"(go.lstv.dev/util/date.Date).Equal": func(ev *pred.Evaluator, args []pred.Val) (pred.Val, error) {
+			return pred.Const{V: constant.MakeBool(true)}, nil
+		},
+	}
+	mk := func() []pred.Val { return []pred.Val{pred.Sym{Name: "input"}, pred.Sym{Name: "r"}} }
+	leaves, err := extractTree(e.P.SSA, dp, mk, sums, fixed, keyOf, domain)
+	if err != nil {
+		e.S.Unk(rule, site, "layout table", "decision table not extractable: "+err.Error(), e.Pos(dp))
+		return nil
+	}
+	// atoms → languages
+	offsets := map[string]bool{}
+	ruleKey := ""
+	for _, l := range leaves {
+		for k := range l.Assign {
+			if strings.HasPrefix(k, "byte@") {
+				offsets[k] = true
+			} else {
+				if ruleKey != "" && ruleKey != k {
+					e.S.Unk(rule, site, "layout table", "more than one rule-bit atom: "+ruleKey+", "+k, e.Pos(dp))
+					return nil
+				}
+				ruleKey = k
+			}
+		}
+	}
+	var offKeys []string
+	for k := range offsets {
+		offKeys = append(offKeys, k)
+	}
+	sort.Strings(offKeys)
+	any := `[\x00-\x{10FFFF}]`
+	pats := []string{pat}
+	for _, k := range offKeys {
+		var off int
+		var c int
+		if _, err := fmt.Sscanf(k, "byte@%d==%d", &off, &c); err != nil || off < 1 || c < 0 || c > 127 {
+			e.S.Unk(rule, site, "layout table", "unsupported atom "+k, e.Pos(dp))
+			return nil
+		}
+		pats = append(pats, fmt.Sprintf(`^%s*\x{%02x}%s{%d}$`, any, c, any, off-1))
+	}
+	rExt, _, _, _ := realDateLanguage("-")
+	rBasic, leap, nonleap, years := realDateLanguage("")
+	base := len(pats)
+	pats = append(pats, `^`+rExt+`$`, `^`+rBasic+`$`, `^`+leap+`$`, `^`+nonleap+`$`, `^`+years+`$`)
+	pats = append(pats, extra...)
+	sp, ds, err := lang.Build(pats...)
+	if err != nil {
+		e.S.Unk(rule, site, "automaton", "language not decidable by the supported subset: "+err.Error(), e.Pos(dp))
+		return nil
+	}
+	atomD := map[string]*lang.D{}
+	for i, k := range offKeys {
+		atomD[k] = ds[1+i]
+	}
+	out := &dateLayout{sp: sp, pattern: ds[0], realExt: ds[base], realBasic: ds[base+1], leaves: len(leaves), extra: ds[base+5:]}
+	out.real = sp.Or(out.realExt, out.realBasic)
+	// oracle self-checks
+	Leap, NonLeap, Years := ds[base+2], ds[base+3], ds[base+4]
+	if !sp.Empty(sp.And(Leap, NonLeap)) || !sp.Empty(sp.Xor(sp.Or(Leap, NonLeap), Years)) {
+		e.S.Unk(rule, "(oracle)", "self-check", "leap / non-leap year languages do not partition [0-9]{4,9}: checker defect", "")
+		return nil
+	}
+	n8, n10 := sp.Count(out.real, 8), sp.Count(out.real, 10)
+	if n8 != 3652425 || n10 != 3652425*101 {
+		e.S.Unk(rule, "(oracle)", "self-check", fmt.Sprintf("real-calendar-date oracle counts %d words of length 8 and %d of length 10, expected 3652425 and 368894925: checker defect", n8, n10), "")
+		return nil
+	}
+	e.S.Ok(rule, "(oracle)", "self-check", fmt.Sprintf("real-date oracle: leap/non-leap partition the years; %d words of length 8 (years 0000-9999, basic) and %d of length 10, as the calendar demands; %d DFA states", n8, n10, out.real.States()), "")
+	empty := sp.AndNot(ds[0], ds[0])
+	out.acc0, out.acc1, out.disabled = empty, empty, empty
+	for _, l := range leaves {
+		if l.Err != nil {
+			e.S.Unk(rule, site, "layout table", fmt.Sprintf("valuation {%s} not decided: %v", l, l.Err), e.Pos(dp))
+			return nil
+		}
+		L := ds[0]
+		for k, v := range l.Assign {
+			if !strings.HasPrefix(k, "byte@") {
+				continue
+			}
+			if v == 0 {
+				L = sp.And(L, atomD[k])
+			} else {
+				L = sp.AndNot(L, atomD[k])
+			}
+		}
+		kind := classifyDateOutcome(l.Out)
+		if kind == "?" {
+			e.S.Unk(rule, site, "layout table", fmt.Sprintf("valuation {%s}: unrecognised outcome %v", l, l.Out.Ret), e.Pos(dp))
+			return nil
+		}
+		bitStates := []int{0, 1} // rule atom: 0 = masked bits equal 0 (flag clear), 1 = flag set
+		if v, has := l.Assign[ruleKey]; has && ruleKey != "" {
+			bitStates = []int{v}
+		}
+		for _, bs := range bitStates {
+			switch {
+			case kind == "accept" && bs == 0:
+				out.acc0 = sp.Or(out.acc0, L)
+			case kind == "accept" && bs == 1:
+				out.acc1 = sp.Or(out.acc1, L)
+			case kind == "ErrBasicFormatDisabled" && bs == 1:
+				out.disabled = sp.Or(out.disabled, L)
+			case kind == "ErrBasicFormatDisabled" && bs == 0:
+				e.S.Bad(rule, site, "layout table", fmt.Sprintf("valuation {%s} rejects with ErrBasicFormatDisabled although RuleDisableBasic is not set", l), e.Pos(dp), "")
+			}
+		}
+	}
+	if ruleKey != "rule&bits(0)" {
+		e.S.Bad(rule, site, "rule bit", "the basic-format gate does not test exactly RuleDisableBasic (bit 0) of the rule argument: "+ruleKey, e.Pos(dp), "")
+	}
+	return out
+}
+
+func classifyDateOutcome(o *pred.Outcome) string {
+	t, ok := o.Ret.(pred.Tuple)
+	if !ok || len(t) != 2 {
+		return "?"
+	}
+	if c, ok := t[1].(pred.Const); ok && c.V == nil {
+		return "accept"
+	}
+	ifc, ok := t[1].(pred.Iface)
+	if !ok {
+		return "?"
+	}
+	p, ok := ifc.V.(pred.Ptr)
+	if !ok || p.Cell == nil {
+		return "?"
+	}
+	s, ok := p.Cell.V.(*pred.StructV)
+	if !ok || len(s.Fields) != 3 {
+		return "?"
+	}
+	switch errv := s.Fields[2].(type) {
+	case pred.Const:
+		if errv.V == nil {
+			return "reject"
+		}
+	case pred.Sym:
+		if errv.Name == "*date.ErrBasicFormatDisabled" {
+			return "ErrBasicFormatDisabled"
+		}
+		return "reject:" + errv.Name
+	}
+	return "reject:other"
+}
+
+func ruleC09Layout(e *Env) {
+	const rule = "C09.layout"
+	dl := dateLayoutLanguages(e, rule, `^[0-9]{4,9}-[0-9]{2}-[0-9]{2}$`, `^[0-9]{4,9}[0-9]{4}$`)
+	if dl == nil {
+		return
+	}
+	sp := dl.sp
+	shapeExt, shapeBasic := dl.extra[0], dl.extra[1]
+	site := "date.DefaultParser"
+	e.S.Ok(rule, site, "layout table", fmt.Sprintf("%d abstract valuations of the separator tests and the rule bit extracted", dl.leaves), "")
+	e.langSubset(rule, site, "no half-separated form (rule clear)", sp, dl.acc0, sp.Or(shapeExt, shapeBasic), "accepted layouts", "D{4,9}-DD-DD ∪ D{4,9}DDDD")
+	e.langSubset(rule, site, "every real date accepted (rule clear)", sp, dl.real, dl.acc0, "real calendar dates", "accepted layouts")
+	e.langSubset(rule, site, "extended only (RuleDisableBasic)", sp, dl.acc1, shapeExt, "accepted layouts under RuleDisableBasic", "D{4,9}-DD-DD")
+	e.langSubset(rule, site, "every real extended date accepted (RuleDisableBasic)", sp, dl.realExt, dl.acc1, "real dates, extended layout", "accepted layouts under RuleDisableBasic")
+	e.langSubset(rule, site, "basic → ErrBasicFormatDisabled", sp, dl.realBasic, dl.disabled, "real dates, basic layout", "texts rejected with ErrBasicFormatDisabled under RuleDisableBasic")
+	e.langSubset(rule, site, "ErrBasicFormatDisabled only for the basic layout", sp, dl.disabled, shapeBasic, "texts rejected with ErrBasicFormatDisabled", "D{4,9}DDDD")
+	// what the regexp alone lets through beyond real dates must be stopped by the calendar guard (C09.valid)
+	if w, some := sp.Witness(sp.AndNot(dl.acc0, dl.real)); some {
+		e.S.Ok(rule, site, "needs calendar guard", fmt.Sprintf("the layout language alone contains non-dates (shortest: %q); rejecting them is the job of the guard checked by C09.valid", w), "")
+	} else {
+		e.S.Ok(rule, site, "needs calendar guard", "the layout language contains real dates only", "")
+	}
 }
